@@ -213,6 +213,24 @@ def work(slot):
                 part.violation(key, what, case)
             if k % 4999 == 1:
                 part.sample(case)
+    # SIZE: sequences of 4..12 lines, each line blank or text (every pattern), on a representative subset of the
+    # configurations (spaces 2 / tab x no bullets / all / first-only x glyphs '-' and '-->')
+    long_cfgs = [c for c in cfgs if 'preset' not in c and c['count'] in (2,) and c['glyph'] in (None, '-', '-->')]
+    for n in range(4, 13):
+        for mask in range(1 << n):
+            lines = ['' if mask >> i & 1 else f't{i}' for i in range(n)]
+            for cfg in long_cfgs:
+                k += 1
+                if k % nslots != idx:
+                    continue
+                case = {'lines': lines, 'cfg': cfg}
+                res = judge(case)
+                part.evaluations += 1
+                part.transitions += 1
+                part.nontrivial += 1
+                part.outcome(f'{cfg["indentor"]}/{cfg["mode"]}/long')
+                for key, what in res:
+                    part.violation(key, what, case)
     part.states = part.evaluations
     return part
 
@@ -221,7 +239,8 @@ def explore(ctx):
     ctx.rule = ('product of all line sequences (len 0..3 over 7 line shapes) and all indenter '
                 'configurations incl. factory presets; each (sequence, configuration) pair is one state; '
                 'non-trivial = at least one non-blank line')
-    ctx.bounds = {'lines': 3, 'line_alphabet': LINE_ALPHABET, 'widths': WIDTHS, 'glyphs': GLYPHS}
+    ctx.bounds = {'lines': 3, 'line_alphabet': LINE_ALPHABET, 'widths': WIDTHS, 'glyphs': GLYPHS,
+                  'long_sequences': '4..12 lines, every blank/text pattern, 10 configurations'}
     for part in pmap(work, [(i, 16) for i in range(16)]):
         ctx.merge(part)
     ctx.assumptions += [
